@@ -146,6 +146,7 @@ struct World {
     kill_next: bool,
     last_file: Value,
     stop_reason: Value,
+    blob_dir: Option<PathBuf>,
     script: Value,
     rpc_counts: HashMap<&'static str, u64>,
     broadcasts: u64,
@@ -394,7 +395,9 @@ impl TxService for CelestiaApp {
         let req = request.into_inner();
         let blob_tx = BlobTx::decode(req.tx_bytes.as_ref()).map_err(|_| Status::invalid_argument("not a BlobTx"))?;
         let hash = super::BlobTxHash::compute(&blob_tx).to_hex().to_lowercase();
-        let heights = heights_in(&blob_tx);
+        let base = world().lock().unwrap().script["base"].as_u64().unwrap_or(0);
+        let heights: Vec<u64> = heights_in(&blob_tx).into_iter().map(|h| h.saturating_sub(base)).collect();
+        let compressed: usize = blob_tx.blobs.iter().map(|b| b.data.len()).sum();
         let lo = heights.first().copied().unwrap_or(0);
         let hi = heights.last().copied().unwrap_or(0);
         let contiguous = !heights.is_empty() && heights.windows(2).all(|p| p[1] == p[0] + 1);
@@ -428,8 +431,20 @@ impl TxService for CelestiaApp {
                         height: 0,
                     });
                 }
+                let mut blobs = vec![];
+                if w.script["record_blobs"].as_bool().unwrap_or(false) {
+                    if let Some(dir) = w.blob_dir.clone() {
+                        for (k, b) in blob_tx.blobs.iter().enumerate() {
+                            let f = dir.join(format!("case{}-sub{}-blob{}.bin", w.script["id"], n, k));
+                            std::fs::write(&f, &b.data).unwrap();
+                            blobs.push(json!({"ns": hex::encode(&b.namespace_id), "file": f.display().to_string(),
+                                              "len": b.data.len()}));
+                        }
+                    }
+                }
                 w.events.push(json!({"ev": "broadcast", "tx": hash, "lo": lo, "hi": hi, "contiguous": contiguous,
-                                     "heights": heights, "delivered": delivered, "told": told}));
+                                     "heights": heights, "delivered": delivered, "told": told,
+                                     "compressed_bytes": compressed, "blobs": blobs}));
                 (w.crash_here("broadcast", "after"), told)
             }
         };
@@ -453,21 +468,59 @@ impl TxService for CelestiaApp {
 
 // ------------------------------------------------------------------------------------------------ sequencer
 
-fn rollup_id() -> RollupId {
-    RollupId::new([7; 32])
+fn rollup_id_n(i: u64) -> RollupId {
+    RollupId::new([i as u8; 32])
 }
 
-fn sequencer_block(h: u64) -> RawSequencerBlock {
+/// Deterministic, incompressible bytes.
+fn noise(seed: u64, len: usize) -> Vec<u8> {
+    let mut x = seed.wrapping_mul(0x9E37_79B9_7F4A_7C15) | 1;
+    let mut out = Vec::with_capacity(len + 8);
+    while out.len() < len {
+        x ^= x << 13;
+        x ^= x >> 7;
+        x ^= x << 17;
+        out.extend_from_slice(&x.to_le_bytes());
+    }
+    out.truncate(len);
+    out
+}
+
+/// The block at model height `h`: what `script.blocks[h]` says ([[rollup, bytes], ..]; several entries may name the
+/// same rollup), or one small entry for rollup 7.  The chain height is `script.base + h`.
+fn make_block(script: &Value, h: u64) -> astria_core::sequencerblock::v1::SequencerBlock {
+    let base = script["base"].as_u64().unwrap_or(0);
+    let mut data = vec![];
+    match script["blocks"].get(h.to_string()).and_then(Value::as_array) {
+        Some(entries) => {
+            for (k, e) in entries.iter().enumerate() {
+                let r = e[0].as_u64().unwrap();
+                let n = e[1].as_u64().unwrap() as usize;
+                data.push((rollup_id_n(r), noise(h * 1000 + k as u64, n)));
+            }
+        }
+        None => data.push((rollup_id_n(7), format!("tx-{h}").into_bytes())),
+    }
     ConfigureSequencerBlock {
-        block_hash: Some(block::Hash::new([h as u8; 32])),
+        block_hash: Some(block::Hash::new([(base + h) as u8; 32])),
         chain_id: Some(SEQUENCER_CHAIN_ID.to_string()),
-        height: h as u32,
-        sequence_data: vec![(rollup_id(), format!("tx-{h}").into_bytes())],
+        height: (base + h) as u32,
+        sequence_data: data,
         unix_timestamp: (1i64, 1u32).into(),
         ..Default::default()
     }
     .make()
-    .into_raw()
+}
+
+fn sequencer_block(h_chain: u64) -> RawSequencerBlock {
+    let script = world().lock().unwrap().script.clone();
+    let base = script["base"].as_u64().unwrap_or(0);
+    make_block(&script, h_chain - base).into_raw()
+}
+
+fn sha256_hex(bytes: &[u8]) -> String {
+    use sha2::Digest as _;
+    hex::encode(sha2::Sha256::digest(bytes))
 }
 
 struct Sequencer;
@@ -479,8 +532,11 @@ impl SequencerService for Sequencer {
         request: Request<GetSequencerBlockRequest>,
     ) -> Result<Response<RawSequencerBlock>, Status> {
         let h = request.into_inner().height;
-        let head = world().lock().unwrap().head;
-        if h == 0 || h > head {
+        let (head, base) = {
+            let w = world().lock().unwrap();
+            (w.head, w.script["base"].as_u64().unwrap_or(0))
+        };
+        if h <= base || h > base + head {
             return Err(Status::not_found("no such block"));
         }
         Ok(Response::new(sequencer_block(h)))
@@ -570,7 +626,10 @@ impl wiremock::Respond for CometBft {
                 wiremock::ResponseTemplate::new(200).set_body_json(Wrapper::new_with_id(id, Some(resp), None))
             }
             Some("abci_info") => {
-                let head = world().lock().unwrap().head;
+                let head = {
+                    let w = world().lock().unwrap();
+                    w.head + w.script["base"].as_u64().unwrap_or(0)
+                };
                 let resp = abci_info::Response {
                     response: tendermint::abci::response::Info {
                         data: "verif".into(),
@@ -671,7 +730,19 @@ fn run_session(servers: &Servers, dir: &PathBuf, limit_virtual_secs: u64) -> Str
             cometbft_endpoint: servers.cometbft.clone(),
             sequencer_poll_period: Duration::from_millis(500),
             sequencer_grpc_endpoint: servers.sequencer.clone(),
-            rollup_filter: crate::IncludeRollup::parse("").unwrap(),
+            rollup_filter: {
+                use base64::Engine as _;
+                let script = world().lock().unwrap().script.clone();
+                let ids: Vec<String> = script["filter"]
+                    .as_array()
+                    .map(|a| {
+                        a.iter()
+                            .map(|i| base64::engine::general_purpose::STANDARD.encode(rollup_id_n(i.as_u64().unwrap()).as_bytes()))
+                            .collect()
+                    })
+                    .unwrap_or_default();
+                crate::IncludeRollup::parse(&ids.join(",")).unwrap()
+            },
             submission_state_path: state_path.clone(),
             metrics: metrics(),
         }
@@ -699,7 +770,8 @@ fn run_session(servers: &Servers, dir: &PathBuf, limit_virtual_secs: u64) -> Str
             // everything relayed and recorded (the write is in the log, nothing is left to submit): stop here
             {
                 let mut w = world().lock().unwrap();
-                if w.last_file["k"] == "started" && w.last_file["last"].as_u64() == Some(w.head) {
+                let base = w.script["base"].as_u64().unwrap_or(0);
+                if w.last_file["k"] == "started" && w.last_file["last"].as_u64() == Some(w.head + base) {
                     break "done".to_string();
                 }
                 if start.elapsed() > Duration::from_secs(limit_virtual_secs) {
@@ -728,17 +800,30 @@ fn crash_scenarios() {
         let _ = std::fs::remove_dir_all(&dir);
         std::fs::create_dir_all(&dir).unwrap();
         let state_path = dir.join("submission-state.json");
-        std::fs::write(&state_path, r#"{"state": "fresh"}"#).unwrap();
+        // a chain whose first relayed height is base + 1: the relayer is told that everything up to base is on Celestia
+        match c["base"].as_u64().unwrap_or(0) {
+            0 => std::fs::write(&state_path, r#"{"state": "fresh"}"#).unwrap(),
+            base => std::fs::write(
+                &state_path,
+                format!(r#"{{"state": "started", "last_submission": {{"celestia_height": 1, "sequencer_height": {base}}}}}"#),
+            )
+            .unwrap(),
+        }
         std::fs::write(
             dir.join("celestia.key"),
             "c8076374e2a4a58db1c924e3dafc055e9685481054fe99e58ed67f5c6ed80e62",
         )
         .unwrap();
+        let blob_dir = base.with_extension("blobs");
         {
             let mut w = world().lock().unwrap();
             *w = World::default();
             w.script = c.clone();
             w.head = c["head"].as_u64().unwrap();
+            if c["record_blobs"].as_bool().unwrap_or(false) {
+                std::fs::create_dir_all(&blob_dir).unwrap();
+                w.blob_dir = Some(blob_dir.clone());
+            }
         }
         let n_sessions = c["sessions"].as_array().unwrap().len();
         let mut outcomes = vec![];
@@ -784,10 +869,29 @@ fn crash_scenarios() {
             }
             outcomes.push(outcome);
         }
+        // what the blocks handed to the relayer contain: per block and rollup the digests of its data items, and the
+        // rollup ids the block lists
+        let mut expected = vec![];
+        if c["record_blobs"].as_bool().unwrap_or(false) {
+            let final_head = world().lock().unwrap().head;
+            for h in 1..=final_head {
+                let blk = make_block(c, h);
+                let mut rollups = serde_json::Map::new();
+                for (rid, txs) in blk.rollup_transactions() {
+                    rollups.insert(
+                        hex::encode(rid.as_bytes()),
+                        json!(txs.transactions().iter().map(|t| sha256_hex(t)).collect::<Vec<_>>()),
+                    );
+                }
+                expected.push(json!({"h": h, "chain_height": blk.height().value(), "hash": hex::encode(blk.block_hash().as_bytes()),
+                                     "rollups": rollups}));
+            }
+        }
         let w = world().lock().unwrap();
         let contents = std::fs::read_to_string(&state_path).unwrap_or_default();
         out.put(&json!({
             "i": c["id"],
+            "expected_blocks": expected,
             "events": w.events,
             "outcomes": outcomes,
             "final_file": file_json(&contents),
